@@ -212,7 +212,8 @@ Lemma fcp_ok : forall bs stack k out pre,
     (forall a, dom stack a -> dom st a) /\
     psum (firstn (cpl k bs) st) + o2 = out /\
     finals st = finals stack /\
-    (Cstk cl stack -> Cpost cl st [] (cpl k bs) o2).
+    (Cstk cl stack -> Cpost cl st [] (cpl k bs) o2) /\
+    ftargets st = ftargets stack.
 Proof.
   induction bs as [|b bs IH]; intros stack k out pre Hs Hu HW Hout Hte.
   - exists stack, out. destruct k; cbn [fcp cpl firstn psum]; splits; auto; try apply Cpost_0.
@@ -236,7 +237,8 @@ Proof.
        Lstk cl (r' :: rr) [] = map (addv addp) (Lstk cl (r :: rr) []) /\
        (forall a, dom (r :: rr) a -> dom (r' :: rr) a) /\
        finals (r' :: rr) = finals (r :: rr) /\
-       (Cstk cl (r :: rr) -> Cstk cl (r' :: rr))).
+       (Cstk cl (r :: rr) -> Cstk cl (r' :: rr)) /\
+       ftargets (r' :: rr) = ftargets (r :: rr)).
     { destruct (N.eqb_spec addp 0) as [Hz|Hnz].
       - exists r. assert (common = o) by (unfold addp, common in *; lia).
         rewrite Hz, map_addv_0. replace (pre + common) with (pre + o) by lia. splits; auto.
@@ -245,10 +247,12 @@ Proof.
         split; [apply shape_aop; auto|]. split; [constructor; auto; apply unf_ok_aop; auto|].
         split; [apply (W_aop (pre + o)); auto; unfold addp, common; lia|].
         split; [apply top_empty_aop; auto|]. split; [apply Lstk_aop|].
-        split; [intros a; apply dom_aop|]. split; [reflexivity|]. apply Cstk_aop. }
-    destruct Hrest as (r' & Hr & Hs' & Hu' & HW' & Hte'' & HL' & Hd' & Hfin' & HC').
+        split; [intros a; apply dom_aop|]. split; [reflexivity|]. split; [apply Cstk_aop|].
+        unfold ftargets. cbn [flat_map add_output_prefix u_node n_trans]. f_equal.
+        rewrite map_map. reflexivity. }
+    destruct Hrest as (r' & Hr & Hs' & Hu' & HW' & Hte'' & HL' & Hd' & Hfin' & HC' & Hft').
     rewrite Hr. cbn [bind].
-    destruct (IH (r' :: rr) k out' (pre + common) Hs' Hu' HW') as (st & o2 & Hf & A1 & A2 & A3 & A4 & A5 & A6 & A7 & A8 & A9); auto.
+    destruct (IH (r' :: rr) k out' (pre + common) Hs' Hu' HW') as (st & o2 & Hf & A1 & A2 & A3 & A4 & A5 & A6 & A7 & A8 & A9 & A10); auto.
     { unfold out', common. lia. }
     fold common addp out'. rewrite Hf. cbn [bind].
     exists (mkUnf (u_node u) (Some (b, common)) :: st), o2.
@@ -264,6 +268,7 @@ Proof.
              split; [discriminate|]. auto. }
     split. { cbn [firstn psum u_last]. unfold out', common in *. lia. }
     split. { unfold finals in *. cbn [map u_node]. rewrite A8, Hfin'. reflexivity. }
+    split. 2:{ unfold ftargets in *. cbn [flat_map u_node]. rewrite A10, Hft'. reflexivity. }
     intros HC. unfold Cstk in HC. cbn [Cpost] in HC. rewrite Ho in HC. destruct HC as (HC1 & HC2 & HC3).
     cbn [Cpost u_node u_last]. split; [exact HC1|]. split; [|apply A9, HC', HC3].
     rewrite A5, HL'. destruct (N.eqb_spec addp 0) as [Hz|Hnz].
@@ -531,3 +536,42 @@ Qed.
 (* the new top of the stack is the final node of the new key *)
 Lemma top_final_suffix (l : list unf) r : top_final (l ++ suffix_nodes r).
 Proof. intros u Hu. rewrite last_opt_app_suffix in Hu. inversion Hu. right. reflexivity. Qed.
+
+(* ---------- reachability of the written nodes from the frozen transitions ---------- *)
+Lemma reach_ext1 E E' x a : ext1 E E' -> reach E x a -> reach E' x a.
+Proof.
+  intros He H. induction H; [constructor|]. econstructor; eauto.
+  destruct He as [->|(y & ->)]; [assumption|right; assumption].
+Qed.
+
+Lemma ftargets_app a b : ftargets (a ++ b) = ftargets a ++ ftargets b.
+Proof. unfold ftargets. apply flat_map_app. Qed.
+
+Lemma ftargets_suffix r : ftargets (suffix_nodes r) = [].
+Proof. induction r as [|c r IH]; cbn; [reflexivity|exact IH]. Qed.
+
+(* one pop: the compiled top node t now lives at a' (or is the sentinel and has no transitions) *)
+Lemma pop_step_R E E' lo p t a' c o :
+  ext1 E E' -> u_last p = Some (c, o) ->
+  ((a' = 0 /\ n_trans (u_node t) = []) \/ exists s, In (a', s) E' /\ bn_of s = u_node t) ->
+  (forall a, In a (addrs E') -> In a (addrs E) \/ a = a') ->
+  Rinv E (lo ++ [p; t]) -> Rinv E' (lo ++ [mkUnf (freeze p a') None]).
+Proof.
+  intros He Hp Hnode Hnew HR a Ha.
+  assert (Hfz : ftargets [mkUnf (freeze p a') None] = map t_addr (n_trans (u_node p)) ++ [a']).
+  { unfold ftargets, freeze. cbn [flat_map u_node]. rewrite Hp. cbn [n_trans]. rewrite map_app, app_nil_r. reflexivity. }
+  rewrite ftargets_app, Hfz.
+  destruct (Hnew a Ha) as [Hold| ->].
+  2:{ exists a'. split; [|constructor]. apply in_or_app. right. apply in_or_app. right. left. reflexivity. }
+  destruct (HR a Hold) as (x & Hx & Hreach). apply (reach_ext1 E E' _ _ He) in Hreach.
+  rewrite ftargets_app in Hx. apply in_app_or in Hx. destruct Hx as [Hx|Hx].
+  { exists x. split; [apply in_or_app; left; exact Hx|exact Hreach]. }
+  unfold ftargets in Hx. cbn [flat_map] in Hx. rewrite app_nil_r in Hx. apply in_app_or in Hx.
+  destruct Hx as [Hx|Hx].
+  { exists x. split; [|exact Hreach]. apply in_or_app. right. apply in_or_app. left. exact Hx. }
+  (* x is a target of the popped node: it is now a target of the node at a' *)
+  exists a'. split; [apply in_or_app; right; apply in_or_app; right; left; reflexivity|].
+  apply in_map_iff in Hx. destruct Hx as (tx & <- & Htx).
+  destruct Hnode as [(_ & Hnil)|(s & Hin & Hs)]; [rewrite Hnil in Htx; destruct Htx|].
+  eapply reach_step; eauto. rewrite <- Hs in Htx. exact Htx.
+Qed.
